@@ -4,6 +4,7 @@ everything it assigns (constant propagation of affine forms, E4) and what it ret
 from __future__ import annotations
 
 import ast
+import copy
 
 from .affine import Env, Form, Lit, NonAffine, State, exec_block, lin_in, literal, normalize_lits, infeasible, subst_form
 from .cfg import CFG
@@ -16,6 +17,7 @@ class PathSummary:
     def __init__(self):
         self.lits = set()  # canonical Lit
         self.opaque = set()  # (text, polarity)
+        self.alts = []
         self.state = State()
         self.writes = []  # atom texts assigned that are not plain locals
         self.ret = None  # ast expr or None (falls off / bare return)
@@ -97,8 +99,67 @@ def _expand_test(e, pol, fi, env, ps, state, data_eq=None):
     ps.opaque.add((norm(inline_simple_locals(e, fi if fi is not None else getattr(env, "fi", None))), pol))
 
 
-def summarize(fi=None, body=None, env=None, data_eq=None, field_roots=(), limit=400, init_state=None):
-    """Path summaries of a loop-free function (fi) or statement list (body)."""
+def _expand_alts(e, pol, fi, env, state, data_eq=None):
+    """disjunctive normal form of test e taken with polarity pol: a list of alternatives, each (literals, opaque)"""
+    one = lambda lits=(), opq=(): [(set(lits), set(opq))]
+    if isinstance(e, ast.Constant):
+        return one()
+    if isinstance(e, ast.Name) and fi is not None:
+        v = single_def(fi, e.id)
+        if isinstance(v, (ast.Compare, ast.BoolOp)):
+            e = v
+    if isinstance(e, ast.UnaryOp) and isinstance(e.op, ast.Not):
+        return _expand_alts(e.operand, not pol, fi, env, state, data_eq)
+    parts = None
+    if isinstance(e, ast.Compare) and len(e.ops) > 1:
+        parts, left = [], e.left
+        for op, right in zip(e.ops, e.comparators):
+            parts.append(ast.Compare(left=left, ops=[op], comparators=[right]))
+            left = right
+        conj = True
+    elif isinstance(e, ast.BoolOp):
+        parts, conj = list(e.values), isinstance(e.op, ast.And)
+    if parts is not None:
+        subs = [_expand_alts(x, pol, fi, env, state, data_eq) for x in parts]
+        if conj == pol:  # conjunction of the parts
+            out = [(set(), set())]
+            for alts in subs:
+                out = [(l1 | l2, o1 | o2) for l1, o1 in out for l2, o2 in alts][:64]
+            return out
+        out = []
+        for alts in subs:
+            out += alts
+        return out[:64]
+    if data_eq is not None:
+        t = data_eq(e)
+        if t is not None:
+            return one(opq=[(t[0], pol if t[1] else not pol)])
+    old = env.state
+    env.state = state
+    try:
+        if isinstance(e, ast.Compare):
+            try:
+                l = literal(e, env, pol)
+                return one(lits=[Lit(subst_form(l.form, state.vals), l.op)])
+            except NonAffine:
+                pass
+        elif (isinstance(e, ast.Name) and e.id in state.vals and len(state.vals[e.id].terms) + (1 if state.vals[e.id].const else 0) > 1) or (isinstance(e, ast.Attribute) and e.attr == "duration"):
+            # truthiness of a number / timedelta: non-zero
+            try:
+                from .affine import lin
+
+                f = subst_form(lin(e, env), state.vals)
+                return one(lits=[Lit(f, "!=" if pol else "==")])
+            except NonAffine:
+                pass
+    finally:
+        env.state = old
+    return one(opq=[(norm(inline_simple_locals(e, fi if fi is not None else getattr(env, "fi", None))), pol)])
+
+
+def summarize(fi=None, body=None, env=None, data_eq=None, field_roots=(), limit=400, init_state=None, dnf=False):
+    """Path summaries of a loop-free function (fi) or statement list (body).  With dnf=True a compound test
+    (and / or / chained comparison, either polarity) is split into its alternatives: one summary per alternative."""
     g = CFG(fi.node if body is None else None, body=body)
     if g.has_loop():
         raise AnalysisError("summarize(): code has a loop")
@@ -157,16 +218,31 @@ def summarize(fi=None, body=None, env=None, data_eq=None, field_roots=(), limit=
                     else:
                         ps.undecided.append(f"line {a.lineno}: statement {type(a).__name__}")
                 if lab and lab[0] == "cond":
-                    _expand_test(lab[1], lab[2], fi, env, ps, st, data_eq)
+                    if dnf:
+                        ps.alts.append(_expand_alts(lab[1], lab[2], fi, env, st, data_eq))
+                    else:
+                        _expand_test(lab[1], lab[2], fi, env, ps, st, data_eq)
             last = g.nodes[path[-1][0]]
             if last.kind == "raise" and ps.kind == "return":
                 ps.kind = "raise"
         except NonAffine as ex:
             ps.undecided.append(str(ex))
-        ps.lits = normalize_lits(ps.lits)
-        if infeasible(ps.lits) or any((t, not p) in ps.opaque for t, p in ps.opaque):
-            continue  # contradictory literals: not a real path
-        out.append(ps)
+        forks = [ps]
+        if dnf:
+            combos = [(set(), set())]
+            for alts in ps.alts:
+                combos = [(l1 | l2, o1 | o2) for l1, o1 in combos for l2, o2 in alts]
+                combos = [c for c in combos if not infeasible(normalize_lits(c[0])) and not any((t, not p) in c[1] for t, p in c[1])][:256]
+            forks = []
+            for l, o in combos:
+                f = copy.copy(ps)
+                f.lits, f.opaque = set(ps.lits) | l, set(ps.opaque) | o
+                forks.append(f)
+        for f in forks:
+            f.lits = normalize_lits(f.lits)
+            if infeasible(f.lits) or any((t, not p) in f.opaque for t, p in f.opaque):
+                continue  # contradictory literals: not a real path
+            out.append(f)
     return out, g
 
 
